@@ -30,6 +30,7 @@ def base_constants():
         "InitTreesH": tlc.Sub("MCInitTreesH1"),
         "LeafKinds": {"W", "CF", "CD", "MV"},
         "AllowPairs": False, "AllowSelective": True, "AllowReopen": False, "AllowSetLimit": False,
+        "IgnoredNames": set(), "AnyPairs": False,
     }
 
 
@@ -43,9 +44,13 @@ def configs(tier):
     c2.update({"LeafKinds": {"W", "CF", "CD", "MV", "RM"}, "AllowPairs": True, "MaxDo": 2, "MaxSteps": 3})
     out.append(("pairs+remove-3calls", c2, "export", None))
     cl = base_constants()
-    cl.update({"AllowSetLimit": True, "AllowSelective": False, "Limits": {1, 2, 100}, "MaxDo": 4, "MaxSteps": 5,
-               "LeafKinds": {"W", "CF"}})
+    cl.update({"AllowSetLimit": True, "AllowSelective": False, "Limits": {1, 2, 100}, "MaxDo": 3, "MaxSteps": 5,
+               "LeafKinds": {"W"}})
     out.append(("limit-changes-5calls", cl, "export", None))
+    ci = base_constants()
+    ci.update({"FileNames": {"x", "k"}, "IgnoredNames": {"k"}, "AllowPairs": True, "AnyPairs": True,
+               "AllowSelective": False, "MaxDo": 2, "MaxSteps": 3, "Limits": {100}, "LeafKinds": {"W", "CF"}})
+    out.append(("ignored-resources-4calls", ci, "export", None))
     c3 = base_constants()
     c3.update({"MaxDo": 3, "MaxSteps": 40, "Limits": {2, 100},
                "InitTreesH": tlc.Sub("MCInitTreesH1" if tier == "quick" else "MCInitTreesH")})
@@ -74,7 +79,7 @@ def run_behaviour(beh):
 def open_project(project_mod, root, limit, persist):
     if persist:
         return project_mod.Project(root, save_history=True, save_objectdb=True, max_history_items=limit)
-    return project_mod.Project(root, ropefolder=None, max_history_items=limit)
+    return project_mod.Project(root, ropefolder=None, max_history_items=limit, ignored_resources=["*.bak"])
 
 
 def replay_history(beh, persist):
@@ -338,18 +343,20 @@ def main(tier):
             d = common.digest(b)
             if d not in seen:
                 seen.add(d)
+                b["_cfg"] = name
                 behs.append(b)
         del got
     behs.sort(key=lambda b: common.digest(b))
-    if tier == "quick" and len(behs) > 60000:
-        rnd = common.rng("c11")
-        rnd.shuffle(behs)
-        behs = behs[:60000]
     cap = 60000 if tier == "quick" else 260000
     if len(behs) > cap:
+        # stratified: configurations with few behaviours are replayed completely, the big ones are sampled
+        import collections
+        per = collections.Counter(b["_cfg"] for b in behs)
+        small = [b for b in behs if per[b["_cfg"]] <= 12000]
+        big = [b for b in behs if per[b["_cfg"]] > 12000]
         rnd = common.rng("c11cap")
-        rnd.shuffle(behs)
-        behs = behs[:cap]
+        rnd.shuffle(big)
+        behs = small + big[:max(0, cap - len(small))]
     # several hundred thousand nested dicts times 16 forked workers do not fit in memory: keep text only
     behs = [json.dumps(b, separators=(",", ":")) for b in behs]
     import gc
